@@ -9,7 +9,7 @@
    a declared supertype (t_super (d_ty d)) and own features (t_own (d_ty d)).  below ts a d: a is d or an ancestor of d.
    has_feat ts x f: the type named x owns or inherits a feature that Feature.__eq__ identifies with f (name, range,
    element type with None = TOP, description; NOT the multipleReferencesAllowed flag: the property excludes it). *)
-From Cassis Require Import Base TS TSProofs Merge MergeProofs MergeProofs2 MergeProofs3 MergeProofs4.
+From Cassis Require Import Base TS TSProofs Merge MergeProofs MergeProofs2 MergeProofs3 MergeProofs4 MergeProofs5.
 
 (* ---- the result is a consistent type system: it satisfies the invariant WF = WFh /\ WFf of C10 / C11.  WFh: one tree
         rooted at TOP, children = inverse of supertype, every feature reference registered, own features carry their type
@@ -207,6 +207,32 @@ Print Assumptions C13_merge_permutation.
 Theorem C13_side_cond_reflect : forall L, side_condb L = true -> side_cond L.
 Proof. exact side_condb_sound. Qed.
 Print Assumptions C13_side_cond_reflect.
+
+(* ---- REGROUPING.  Under the side condition of the flat tuple Z, merging a group X of the inputs first and then the result
+        together with the remaining inputs Ys (Z1 r: any list made of r and Ys, in any order) has the same outcome as
+        merging everything at once: both succeed with equivalent results, or both raise ValueError (merge_grouped
+        propagates the exception of the inner merge).  The three groupings of a triple are instances. ---- *)
+Theorem C13_merge_regroup : forall X Ys Z1 Z,
+  (forall r ts, In ts (Z1 r) <-> ts = r \/ In ts Ys) -> (forall ts, In ts Z <-> In ts X \/ In ts Ys) ->
+  all_WFh Z -> nofinal (type_list Z) -> side_cond (type_list Z) -> same_outcome (merge_grouped X Z1) (merge Z).
+Proof. exact merge_regroup. Qed.
+Print Assumptions C13_merge_regroup.
+Theorem C13_merge_regroup_left : forall a b c, all_WFh [a; b; c] -> nofinal (type_list [a; b; c]) -> side_cond (type_list [a; b; c]) ->
+  same_outcome (do r <- merge [a; b];; merge [r; c]) (merge [a; b; c]).
+Proof. exact merge_regroup_left. Qed.
+Print Assumptions C13_merge_regroup_left.
+Theorem C13_merge_regroup_right : forall a b c, all_WFh [a; b; c] -> nofinal (type_list [a; b; c]) -> side_cond (type_list [a; b; c]) ->
+  same_outcome (do r <- merge [b; c];; merge [a; r]) (merge [a; b; c]).
+Proof. exact merge_regroup_right. Qed.
+Print Assumptions C13_merge_regroup_right.
+Theorem C13_merge_regroup_outer : forall a b c, all_WFh [a; b; c] -> nofinal (type_list [a; b; c]) -> side_cond (type_list [a; b; c]) ->
+  same_outcome (do r <- merge [a; c];; merge [r; b]) (merge [a; b; c]).
+Proof. exact merge_regroup_outer. Qed.
+Print Assumptions C13_merge_regroup_outer.
+(* no well-formed input can stall the readiness loop: the "no progress" ValueError needs a hand-made declaration list *)
+Theorem C13_merge_all_ready : forall inputs, all_WFh inputs -> forall x s, user_edge (type_list inputs) x s -> proc (type_list inputs) s.
+Proof. exact proc_all. Qed.
+Print Assumptions C13_merge_all_ready.
 
 (* ---- REPLAY.  A well-formed type system t that contains TypeSystem() (init_embedded: every built-in type,
         DocumentAnnotation included, with its supertype and - up to __eq__ - its features; the predefined types of t
